@@ -641,28 +641,23 @@ func run(c Sx) Result {
 		if a := runAt(sc, b, r); a.kind != 3 {
 			fails = append(fails, fmt.Sprintf("estimate %d does not let the call succeed (kind %d cls %d)", r, a.kind, a.cls))
 		}
-		viaShortcut := plain && r == params.TxGas
 		if !funded || r > cap {
-			if viaShortcut && funded && (sc.feeCap.IsZero() || new(big.Int).Add(new(big.Int).Add(
-				new(big.Int).Mul(big.NewInt(int64(r)), sc.feeCap.ToBig()), blobCost(sc)), valueOf(sc)).Cmp(sc.balance.ToBig()) <= 0) {
-				// recorded deviation (C37_estimate_le_gascap_refuted): the plain-transfer shortcut answers
-				// 21000 although gasCap / the requested limit is below it; funds are still respected
-				res.Tags = append(res.Tags, "shortcut_above_cap")
-			} else {
-				fails = append(fails, fmt.Sprintf("estimate %d exceeds the allowance cap %d (funded=%v)", r, cap, funded))
+			// (formerly exempted for the plain-transfer shortcut answering 21000 above the cap;
+			// repaired in /repo 10bd791e6e — now a failure)
+			tag := ""
+			if plain && r == params.TxGas {
+				tag = " [shortcut_above_cap]"
 			}
+			fails = append(fails, fmt.Sprintf("estimate %d exceeds the allowance cap %d (funded=%v)%s", r, cap, funded, tag))
 		}
-		if viaShortcut && sc.pr.fork == 3 {
-			// recorded deviation: under Amsterdam (EIP-2780) a plain transfer's intrinsic gas is below
-			// params.TxGas, yet the shortcut still answers 21000 — sufficient, not minimal (the
-			// hypothesis "nothing below TxGas succeeds" of C37_estimate_minimal does not hold there)
-			if a := runAt(sc, b, r-1); a.kind == 3 {
-				res.Tags = append(res.Tags, "shortcut_not_minimal_amsterdam")
-			}
-		} else if b.mono && r > 0 {
+		if b.mono && r > 0 {
 			if sc.erNum == 0 {
 				if a := runAt(sc, b, r-1); a.kind == 3 {
-					fails = append(fails, fmt.Sprintf("errorRatio 0, monotone program: %d also succeeds, estimate %d is not minimal", r-1, r))
+					tag := ""
+					if plain && r == params.TxGas && sc.pr.fork == 3 {
+						tag = " [shortcut_not_minimal_amsterdam]" // repaired in /repo 2d92053e8d
+					}
+					fails = append(fails, fmt.Sprintf("errorRatio 0, monotone program: %d also succeeds, estimate %d is not minimal%s", r-1, r, tag))
 				}
 				res.Tags = append(res.Tags, "minimal_checked")
 			} else if ratio := sc.ratio(); ratio < 1 {
@@ -890,13 +885,19 @@ func handPicked() []*scenario {
 			balance: uint256.NewInt(1 << 60), value: z(), blobCap: z(), skipTx: true}
 	}
 	var out []*scenario
-	// the witness of C37_estimate_le_gascap_refuted: gasCap 10000, plain transfer -> 21000
+	// the witness of C37_legacy_estimate_le_gascap_refuted: gasCap 10000, plain transfer (formerly -> 21000)
 	s := base(0, 2)
 	s.gasCap = 10000
 	out = append(out, s)
 	// same with a header gas limit below TxGas
 	s = base(0, 1)
 	s.hdrGas = 5000
+	out = append(out, s)
+	// the former Amsterdam finding: a plain transfer under EIP-2780 needs less than 21000
+	s = base(0, 3)
+	out = append(out, s)
+	s = base(0, 3)
+	s.value = uint256.NewInt(12345)
 	out = append(out, s)
 	// plain transfer whose funds allow 20000 gas only: the EVM refuses the shortcut
 	s = base(0, 2)
@@ -954,9 +955,9 @@ func gen(r *Rng, tier string, emit func(Sx)) {
 	for _, sc := range handPicked() {
 		emitScenario(sc, emit)
 	}
-	n := 1500
+	n := 4000
 	if tier == "thorough" {
-		n = 40000
+		n = 60000
 	}
 	for i := 0; i < n; i++ {
 		emitScenario(randScenario(r), emit)
@@ -1000,7 +1001,7 @@ func main() {
 	}
 	Main(Family{
 		ID: "C37",
-		Rule: "hand-picked edge scenarios (gas cap / header limit below 21000 with a plain transfer, funds for exactly 20000/21000 gas, balance == value, Osaka cap vs Amsterdam with the RPC default gas 2^63-1, 63/64 nesting depth 3, refunds, blob cost == balance) followed by random scenarios: program kind (plain transfer, constant loop, GAS-threshold, GAS-window [non-monotone], reverting/invalid, nested CALL chain depth 1-3 forwarding all or a fixed amount of gas, SSTORE-clearing with refunds, all-gas burner [non-monotone], contract creation, calldata-heavy) x fork (Shanghai, Prague, Osaka, Amsterdam) x header/call gas x gas cap (0, 50M, near the need, below 21000) x fee style (zero, legacy, 1559, tip above cap, below base fee, enormous fee cap) x value (nil, 0, random) x blobs x balance placed around value+blob cost+k*feeCap x error ratio (0, 0.015, dyadic ratios, >=1). Each case carries the real EVM's answers (core.ApplyMessage run by the harness, independent of gasestimator.execute) at every gas limit the real Estimate probed. Non-trivial: Estimate made >= 3 probes, or failed after at least one probe; distinct = distinct case line.",
+		Rule: "corpus/C37: the witnesses of the two repaired findings; then hand-picked edge scenarios (gas cap / header limit below 21000 with a plain transfer, plain transfers under Amsterdam, funds for exactly 20000/21000 gas, balance == value, Osaka cap vs Amsterdam with the RPC default gas 2^63-1, 63/64 nesting depth 3, refunds, blob cost == balance) followed by random scenarios: program kind (plain transfer, constant loop, GAS-threshold, GAS-window [non-monotone], reverting/invalid, nested CALL chain depth 1-3 forwarding all or a fixed amount of gas, SSTORE-clearing with refunds, all-gas burner [non-monotone], contract creation, calldata-heavy) x fork (Shanghai, Prague, Osaka, Amsterdam) x header/call gas x gas cap (0, 50M, near the need, below 21000) x fee style (zero, legacy, 1559, tip above cap, below base fee, enormous fee cap) x value (nil, 0, random) x blobs x balance placed around value+blob cost+k*feeCap x error ratio (0, 0.015, dyadic ratios, >=1). Each case carries the real EVM's answers (core.ApplyMessage run by the harness, independent of gasestimator.execute) at every gas limit the real Estimate probed. Non-trivial: Estimate made >= 3 probes, or failed after at least one probe; distinct = distinct case line.",
 		Gen:  gen,
 		Run:  run,
 	})
